@@ -254,12 +254,10 @@ VF_PART(roundtrip_3d) { TH = C.thorough(); roundtrip(C, 3, 4); }
 // no such argument: it is judged against the geometric cell of the library (getCellEdges / sampleBelongsToCell: centred).
 static const double OFFS[6] = {-0.49, -0.25, 0.25, 0.49, -0.05, 0.05};   // 4 quick, 6 thorough (all strictly inside a cell for both conventions)
 static int nOff() { return TH ? 6 : 4; }
-static void locate(Ctx& C, int nd, int nxq)
+// all the point-location routes of one grid; OFFV/NO = menu of offsets (fractions of a mesh, relative to a node) per axis
+static void judgeLocate(Ctx& C, const RefGrid& g, uint64_t id, const double* OFFV, const int NO)
 {
-  Space sp = gridSpace(nd, nNx(nd));
-  for_each_case(C, sp, [&](uint64_t id, const std::vector<int>& idx) {
-    if (!inTier(C, nd, idx, nxq)) return;
-    RefGrid g = decodeGrid(nd, idx);
+    const int nd = g.nd;
     std::unique_ptr<DbGrid> db(makeLib(g));
     const std::string kase = std::to_string(id);
     const Grid& G = db->getGrid();
@@ -270,7 +268,6 @@ static void locate(Ctx& C, int nd, int nxq)
       db->addColumns(v, "noderank", ELoc::Z);
     }
     int ext[3] = {1, 1, 1}, tot = 1, noff = 1;
-    const int NO = nOff();
     for (int i = 0; i < nd; i++) { ext[i] = g.nx[i] + 2; tot *= ext[i]; noff *= NO; }
     std::vector<std::vector<double>> X(nd);
     std::vector<int> expCorner, expCentre;
@@ -284,7 +281,7 @@ static void locate(Ctx& C, int nd, int nxq)
       for (int o = 0; o < noff; o++)
       {
         double f[3] = {0, 0, 0}; int ic[3] = {0, 0, 0}; int wo = o;
-        for (int i = 0; i < nd; i++) { double off = OFFS[wo % NO]; wo /= NO; f[i] = ii[i] + off; ic[i] = off < 0 ? ii[i] - 1 : ii[i]; }
+        for (int i = 0; i < nd; i++) { double off = OFFV[wo % NO]; wo /= NO; f[i] = ii[i] + off; ic[i] = off < 0 ? ii[i] - 1 : ii[i]; }
         int rCorner = g.rank(ic);
         std::vector<double> p = g.pos(f);
         VectorDouble coor(p.begin(), p.end());
@@ -409,8 +406,60 @@ static void locate(Ctx& C, int nd, int nxq)
     C.outcome("queries-inside", nin); C.outcome("queries-outside", nout);
     if (g.rotated) C.nontrivial(Hash().i(nd).u(id).h);
     if (id % 499 == 5) C.sample("{\"id\":" + kase + ",\"grid\":" + jstr(g.text()) + ",\"queries\":" + std::to_string(nin + nout) + "}");
+}
+static void locate(Ctx& C, int nd, int nxq)
+{
+  Space sp = gridSpace(nd, nNx(nd));
+  for_each_case(C, sp, [&](uint64_t id, const std::vector<int>& idx) {
+    if (!inTier(C, nd, idx, nxq)) return;
+    RefGrid g = decodeGrid(nd, idx);
+    judgeLocate(C, g, id, OFFS, nOff());
   });
 }
+
+// ---- mesh scale: the same geometry expressed in other units (mesh 2^-20 .. 2^20, dyadic: the reference is exactly scale
+// invariant) must give the same cells: probes at 0.001 .. 0.499 of a mesh from the nodes (>= 1e-3 mesh away from every cell
+// boundary of both conventions), including just outside the grid; round trips rank -> coordinates -> rank.
+static const double MSCALE[6] = {1. / 1048576., 1. / 16384., 1. / 128., 1., 1024., 1048576.};
+static const char* MSCALEN[6] = {"2^-20", "2^-14", "2^-7", "1", "2^10", "2^20"};
+static const double MSOFF[8] = {-0.499, -0.4, -0.1, -0.001, 0.001, 0.1, 0.4, 0.499};
+static void meshscale(Ctx& C, int nd)
+{
+  Space sp; sp.axis("scale", 6).axis("x0", 2).axis("rot", nd == 1 ? 1 : 3);
+  for_each_case(C, sp, [&](uint64_t id, const std::vector<int>& idx) {
+    const double sc = MSCALE[idx[0]];
+    static const int NX[3] = {3, 4, 2}; static const double DX[3] = {1, 2, 0.5}, X0[3] = {-3.75, 100.25, 7.};
+    static const double R2[3] = {0., 45., 30.}, R3[3][3] = {{0, 0, 0}, {45, 0, 0}, {30, 20, 10}};
+    RefGrid g; g.nd = nd;
+    for (int i = 0; i < nd; i++) { g.nx[i] = NX[i]; g.dx[i] = sc * DX[i]; g.x0[i] = idx[1] ? sc * X0[i] : 0.; }
+    if (nd == 2) g.angles = {R2[idx[2]], 0.};
+    if (nd == 3) g.angles = {R3[idx[2]][0], R3[idx[2]][1], R3[idx[2]][2]};
+    g.setRot();
+    // round trips of every node, both conventions (default eps)
+    {
+      std::unique_ptr<DbGrid> db(makeLib(g));
+      const Grid& G = db->getGrid();
+      for (int r = 0; r < g.ntotal(); r++)
+      {
+        VectorDouble c = G.rankToCoordinates(r);
+        int ii[3]; g.indices(r, ii);
+        C.eval(2);
+        for (int centered = 0; centered < 2; centered++)
+        {
+          int rb = G.coordinateToRank(c, centered);
+          if (rb != r)
+          { C.violation(std::string("coord-roundtrip:") + (centered ? "centered" : "corner") + ":" + rotTag(g), "mesh scale " + std::string(MSCALEN[idx[0]]) + ": node " + vi(ii, nd) + " (rank " + std::to_string(r) + ") -> " + vstr(c) + " -> rank " + std::to_string(rb) + "; " + g.text(), std::to_string(id)); break; }
+        }
+      }
+    }
+    judgeLocate(C, g, id, MSOFF, 8);
+    C.outcome(std::string("mesh=") + MSCALEN[idx[0]]);
+    if (idx[0] != 3) C.nontrivial(Hash().i(nd).u(id).u(77).h);
+  });
+}
+VF_PART(meshscale_1d) { TH = C.thorough(); meshscale(C, 1); }
+VF_PART(meshscale_2d) { TH = C.thorough(); meshscale(C, 2); }
+VF_PART(meshscale_3d) { TH = C.thorough(); meshscale(C, 3); }
 VF_PART(locate_1d) { TH = C.thorough(); locate(C, 1, 4); }
 VF_PART(locate_2d) { TH = C.thorough(); locate(C, 2, 4); }
 VF_PART(locate_3d) { TH = C.thorough(); locate(C, 3, 3); }
